@@ -128,6 +128,7 @@ func (p *gcpPicker) Pick(info balancer.PickInfo) (balancer.PickResult, error) {
 // unresponsiveWindow returns channel pool's unresponsiveDetectionMs multiplied
 // by 2^(refresh count since last response) as a time.Duration. This provides
 // exponential backoff when RPCs keep deadline exceeded after consecutive reconnections.
+// Must be called holding the balancer mutex lock (read or write).
 func (p *gcpPicker) unresponsiveWindow(scRef *subConnRef) time.Duration {
 	factor := uint32(1 << scRef.refreshCnt)
 	return time.Millisecond * time.Duration(factor*p.gb.cfg.GetChannelPool().GetUnresponsiveDetectionMs())
@@ -141,18 +142,25 @@ func (p *gcpPicker) detectUnresponsive(ctx context.Context, scRef *subConnRef, c
 	// Treat as a response from the server if deadline exceeded was not caused by client side context reached deadline.
 	if dl, ok := ctx.Deadline(); rpcErr == nil || status.Code(rpcErr) != codes.DeadlineExceeded ||
 		rpcErr.Error() != deErr.Error() || !ok || dl.After(time.Now()) {
+		p.gb.mu.Lock()
 		scRef.gotResp()
+		p.gb.mu.Unlock()
 		return
 	}
 
-	if callStarted.Before(scRef.lastResp) {
+	// lastResp and refreshCnt are written under the balancer mutex (responses, refresh swap).
+	p.gb.mu.RLock()
+	lastResp, window := scRef.lastResp, p.unresponsiveWindow(scRef)
+	p.gb.mu.RUnlock()
+
+	if callStarted.Before(lastResp) {
 		return
 	}
 
 	// Increment deadline exceeded calls and check if there were enough deadline
 	// exceeded calls and enough time passed since last response to trigger refresh.
 	if scRef.deCallsInc() >= p.gb.cfg.GetChannelPool().GetUnresponsiveCalls() &&
-		scRef.lastResp.Before(time.Now().Add(-p.unresponsiveWindow(scRef))) {
+		lastResp.Before(time.Now().Add(-window)) {
 		p.gb.refresh(scRef)
 	}
 }
